@@ -507,7 +507,7 @@ def make_model(desc):
 
 
 def histories(tier):
-    st = bfs(GateModel(), 4 if tier == "thorough" else 3, budget_s=1200 if tier == "thorough" else 150)
+    st = bfs(GateModel(), 4 if tier == "thorough" else 3, budget_s=1200 if tier == "thorough" else 1500)
     return st
 
 
@@ -516,5 +516,5 @@ PARTS = [
     Part("jwe-allow-lists", h_jwe, split_depth=3),
     Part("jwe-several-recipients", h_jwe_multi, split_depth=2),
     Part("call-histories", custom=histories, engine="E2"),
-    Part("thread-schedules", h_threads, bound={"quick": 1, "thorough": 2}, split_depth=2, budget={"quick": 200, "thorough": 3000}, engine="E3"),
+    Part("thread-schedules", h_threads, bound={"quick": 1, "thorough": 2}, split_depth=2, budget={"quick": 2000, "thorough": 3000}, engine="E3"),
 ]
